@@ -885,7 +885,7 @@ def gen_frame_op(draw, schema, ctx, last):
             op["cols2"] = subset(nums)
             allc = list(cols) + [c for c in op["cols2"] if c not in cols]
         # pandas orders the union of the column labels; recomputed by the evaluator anyway
-        return op, [[n, "float"] for n in sorted(allc)], False
+        return op, [[n, ("bool" if fn in CMP else "float")] for n in sorted(allc)], False
     if k in ("where",):
         cols = subset(nums)
         op = {"op": _sample(draw, ["where", "mask"]), "cols": cols, "cmp": _sample(draw, CMP), "than": _sample(draw, NUM_LITS), "other": _sample(draw, [0, -1, {"nan": 1}, 2.5])}
